@@ -9,7 +9,7 @@ RULE = ("host configurations generated from one PRNG and built in fresh anonymou
         "IPv4-mapped IPv6 addresses, point-to-point addresses; 0-3 default routes: gateway/device/src-hinted/"
         "blackhole/multipath, metrics incl. ties and >= 2^31-1); per configuration 6-8 targets (attached net/host, "
         "supernet, subnet, fixed, none, IPv6) x all 8 combinations of --iface/--srcip/--srcmac x 2 entry points "
-        "(getScanRange, ipScanCmdOpts.parseOptions) + arp command runs observed on the wire; non-trivial = the option "
+        "(getScanRange, ipScanCmdOpts.parseOptions) + real arp / icmp command runs observed on the wire (veth peer, tun fd); non-trivial = the option "
         "code accepted the input (an interface and a source were chosen); distinct by (configuration, case number)")
 
 CODES = {1: "error class differs from the model", 2: "chosen interface differs from the model",
@@ -17,6 +17,7 @@ CODES = {1: "error class differs from the model", 2: "chosen interface differs f
          5: "vpn flag differs from the model", 6: "gateway differs from the model"}
 
 ERRCODE = {"": 0, "srciface": 1, "srcip": 2, "srcmac": 3}
+ENTRY = ["getScanRange", "parseOptions", "arp command on the wire", "icmp command on the wire"]
 V4IN6 = bytes([0] * 10 + [255, 255])
 MAXINT32 = 2 ** 31 - 1
 
@@ -181,14 +182,16 @@ def expected(cfg, o):
 
 def spec_on_impl(cfg, o):
     """Returns None or (key, reason)."""
-    if o["err"].startswith("wire-skip"):
+    if o["err"] in ("wire-skip", "wire-crash"):
         return None
     if o["err"] == "wire-noframes":
         exp = expected(cfg, o)
-        return ("wire-noframes", "the arp command reports success but no ARP request left any interface" + (
+        return ("wire-noframes", "the command reports success but no probe left any interface" + (
             "; the property demands an error: " + exp[1] if exp[0] == "err" else ""))
+    if o["err"] == "wire-garbage":
+        return ("wire-garbage", "what left through the MAC-less interface is not a raw IPv4 packet: " + o["errtext"])
     if o["err"] == "wire-mixed":
-        return ("wire-mixed", "ARP requests of one scan left through several interfaces or with several sources: %s" % json.dumps(o.get("wire")))
+        return ("wire-mixed", "probes of one scan left through several interfaces or with several sources: %s" % json.dumps(o.get("wire")))
     exp = expected(cfg, o)
     if o["err"]:
         if exp[0] == "ok":
@@ -215,8 +218,8 @@ def spec_on_impl(cfg, o):
         return ("foreign-srcip", "source %s is not an address of the chosen interface %s" % (o["srcip_out"], o["ifname"]))
     if o["srcmac_in"] is None and mac != (hx(me["mac"]) if me["mac"] is not None else None):
         return ("foreign-srcmac", "source MAC %s is not the MAC of the chosen interface %s" % (o["srcmac_out"], o["ifname"]))
-    if o["entry"] == 1 and o["vpn"] != (mac is None):
-        return ("vpn-flag", "vpn mode is %s although the source MAC is %s" % (o["vpn"], o["srcmac_out"]))
+    if o["entry"] in (1, 3) and o["vpn"] != (mac is None):
+        return ("vpn-flag", "vpn mode (raw-IP framing) is %s although the source MAC is %s" % (o["vpn"], o["srcmac_out"]))
     if o["entry"] == 2 and mac is None:
         return ("arp-no-mac", "the arp scan goes ahead without a source MAC")
     if exp[0] == "err":
@@ -238,6 +241,8 @@ def load(ctx, path):
     for r in rows:
         if r.get("kind") == "skipped":
             skipped = r["why"]
+        elif r.get("kind") == "childfail":
+            ctx.info.append("configuration %s was lost (its child process died): %s" % (r["id"], r["why"][-400:]))
         elif r.get("kind") == "cfg":
             cfgs[r["id"]] = r
         elif r.get("kind") == "case":
@@ -309,6 +314,10 @@ def run(ctx):
                   sample={"configuration": cfgs[o["id"]]["class"], "target": o["target"], "iface": o["iface"],
                           "srcip": o["srcip"], "srcmac": o["srcmac"], "entry": o["entry"], "err": o["err"],
                           "chosen": o["ifname"], "srcip_out": o["srcip_out"], "srcmac_out": o["srcmac_out"], "vpn": o["vpn"]})
+    crashes = [o for o in cases if o["err"] == "wire-crash"]
+    if crashes:
+        ctx.info.append("%d run(s) of the real arp command crashed or hung inside the scan engine (not a C17 matter: the options "
+                        "had been accepted; reported for the engine properties): %s" % (len(crashes), crashes[0]["errtext"][:1200]))
     per_key = judge(ctx, cfgs, cases)
     if per_key:
         ctx.info.append("property violations on the implementation's observations by class: %s" % json.dumps(per_key))
@@ -332,7 +341,7 @@ def run(ctx):
                 nbroken += 1
                 if nbroken <= 8:
                     ctx.broken.append(("correspondence: configuration %d case %d (%s, target %s, flags %s): %s" % (
-                        o["id"], o["n"], ["getScanRange", "parseOptions", "arp command"][o["entry"]], o["target"] or "none",
+                        o["id"], o["n"], ENTRY[o["entry"]], o["target"] or "none",
                         flags_of(o), "; ".join(CODES[c] for c in codes)), json.dumps(o)[:700]))
             ctx.cov["traces_validated_against_impl"] += len(flat)
         if nbroken > 8:
@@ -370,7 +379,7 @@ def replay(ctx, path):
         res = spec_on_impl(cfgs[o["id"]], o)
         print("replay configuration %d, target %s, --iface %s --srcip %s --srcmac %s (%s):" % (
             o["id"], o["target"] or "none", o["iface"] or "-", o["srcip"] or "-", o["srcmac"] or "-",
-            ["getScanRange", "parseOptions", "arp command"][o["entry"]]))
+            ENTRY[o["entry"]]))
         print("  observed: err=%r iface=%s srcip=%s srcmac=%s vpn=%s %s" % (
             o["err"], o["ifname"], o["srcip_out"], o["srcmac_out"], o["vpn"], json.dumps(o.get("wire") or "")))
         print("  " + (res[1] if res else "property holds on this input"))
